@@ -342,7 +342,7 @@ theorem computeFloat_trunc_neg {F p eb sm lg rlo rhi} (LL : LemLayout F p eb sm 
         rw [hl, hAll]; exact Nat.sub_add_cancel (Nat.two_pow_pos 64)
       obtain ⟨hhi62, hlow, hupp⟩ := fallback_bounds (w * 2 ^ lz) hi5 lo5 lo hi (w * 2 ^ lz * 2 ^ (b + 127))
         (5 ^ e) hwn1 hwn2 hhi5n hhi hzlow (hzup.imp id (fun h => ⟨h.2.1, h.2.2⟩)) h5pos hNlo hNhi hall
-      exact estOK_neg lay e b lz hi w hhi hhi62 hpow hlow hupp
+      exact estOK_neg lay e b lz hi w hb795 (by omega) hlz hhi hhi62 hpow hlow hupp
   · have hc : (!false && lo == litAllOnes && !false) = false := by
       have : (lo == litAllOnes) = false := by simp [hl]
       rw [this]; simp
